@@ -30,6 +30,8 @@ DEF_CREATE_ROUTES = ['new', 'clone']
 DEF_MAX_PROBES = 2        # rejected uses of the name before the definition, per history
 DEF_SLICE = 32
 DEF_MAX_DEPTH = 8         # closes at depth DEF_MAX_PROBES + 2
+# null family (see NullModel): routes of the equality filters
+NULL_FORMS = ['kw', 'dict', 'query', 'any', 'one', 'nav']
 ASSUMPTIONS = [
     'names of two or three letters, all 2^n case patterns; one observed instance plus one referred instance',
     'values from a three-value alphabet per attribute type',
@@ -75,6 +77,18 @@ ASSUMPTIONS = [
     'toggling of the name and of its upper-cased form (MASS, mass, ma\u00df, MA\u00df ... all address the attribute declared Ma\u00df)',
     'palette family: when a write leaves the instance with more entries than it was created with, one more observation is made '
     '(delete under the declared spelling, then every spelling must read unset); the number of entries itself is never judged',
+    'null family: per core type (unique_id, string, integer, real, boolean) a class Nv with an identifying and a plain attribute of '
+    'that type (two-letter names, all case patterns; thorough: three letters) and two referring classes whose referential '
+    'attribute is derived from the identifying one (one association spells the key as declared, one in swapped case); the '
+    'observed instance is created with positional None values or loaded from a named INSERT that leaves the identifying column '
+    'out; writes of None, the null value of the type and one non-null value (thorough: also null-ish values of other types) and '
+    'deletions under every spelling, searched to closure; constructor forms (None / null keyword under every spelling, positional '
+    'None, clone; routes MetaModel.new / MetaClass.new / metaclass call / MetaModel.clone / MetaClass.clone) are terminal; after '
+    'every step every spelling of both attributes is read on three instances (plus the created one) and of the referential '
+    'attribute on both referring instances, compared by type AND value (None, 0, 0.0, False and the empty string are five different values); every '
+    'instance is serialised; filters <spelling>=v for v in None, 0, the empty string, 0.0, False and the non-null values, through %s, compare the '
+    'whole selection with the instances whose one stored value equals v (python equality, which is what an equality filter means: 0 '
+    'matches False and 0.0, nothing but None matches None)' % ', '.join(NULL_FORMS),
 ]
 
 SQL = ('CREATE TABLE Ab (Id UNIQUE_ID, Xy STRING, R_a UNIQUE_ID);\n'
@@ -1531,6 +1545,348 @@ def def_unit_test(hist, op):
 
 
 # ---------------------------------------------------------------------------------------------------------------------
+# null family: attributes that really hold None, or one of the other null-ish values (0, '', 0.0, False), on attributes of
+# every core type -- identifying, plain, and the referential attributes derived from the identifying one through two
+# associations (one spells the key as declared, one in another letter case). The values are written / constructed /
+# loaded under every spelling and read / filtered / serialised under every spelling; reads are compared by type AND
+# value (None is not 0 is not False is not 0.0 is not ''), filters by the whole selection over three or four instances.
+# ---------------------------------------------------------------------------------------------------------------------
+NULL_TYPES = ['UNIQUE_ID', 'STRING', 'INTEGER', 'REAL', 'BOOLEAN']
+NULL_ORIGINS = ['api', 'loaded']     # the observed instance: created with positional None values / loaded from a named
+                                     # INSERT that leaves the identifying column out
+NULL_OF = {'UNIQUE_ID': 0, 'STRING': '', 'INTEGER': 0, 'REAL': 0.0, 'BOOLEAN': False}
+NULL_NONNULL = {'UNIQUE_ID': [7, 8], 'STRING': ['p', 'q'], 'INTEGER': [5, 6], 'REAL': [1.5, 2.5], 'BOOLEAN': [True, True]}
+# null-ish values of OTHER types that the serializer of the type accepts as well (thorough tier)
+NULL_CROSS = {'quick': {}, 'thorough': {'INTEGER': [False], 'REAL': [0], 'BOOLEAN': [0], 'UNIQUE_ID': [False]}}
+NULL_NAMES = {'quick': ('Ky', 'Pl'), 'thorough': ('Kyx', 'P_l')}
+NULL_NULLISH = [None, 0, '', 0.0, False]
+# (NULL_FORMS: top of the module)
+NULL_NEW_ROUTES = ['model', 'metaclass', 'call']
+NULL_SLICE = 16
+NULL_MAX_DEPTH = 8
+
+
+def null_layouts(tier):
+    return ['%s/%s' % (t, o) for t in NULL_TYPES for o in NULL_ORIGINS]
+
+
+def same(a, b):
+    """Type-and-value equality: None, 0, 0.0, False and '' are five different values."""
+    if a is None or b is None:
+        return a is b
+    return type(a) is type(b) and a == b
+
+
+class NullModel(explorer.Model):
+    def __init__(self, tier, layout, seed=0):
+        self.tier = tier
+        self.layout = layout
+        self.ty, self.origin = layout.split('/')
+        self.decl = NULL_NAMES[tier if tier in NULL_NAMES else 'quick']
+        self.us = [d.upper() for d in self.decl]
+        self.sp = dict((d.upper(), spellings(d)) for d in self.decl)
+        self.rsp = spellings('R_k')
+        self.kinds = spellings('Nv')
+        self.rkey = self.decl[0].swapcase()             # the key of the second association, not spelled as declared
+        self.null = NULL_OF[self.ty]
+        self.nonnull = NULL_NONNULL[self.ty]
+        self.vals = [None, self.null, self.nonnull[0]] + NULL_CROSS.get(tier, {}).get(self.ty, [])
+        self.qvals = list(NULL_NULLISH)
+        for v in self.nonnull + self.vals:
+            if not any(same(v, q) for q in self.qvals):
+                self.qvals.append(v)
+        ky, pl = self.decl
+        self.sql = ('CREATE TABLE Nv (%s %s, %s %s);\nCREATE TABLE Ra (Id UNIQUE_ID, R_k %s);\n'
+                    'CREATE TABLE Rb (Id UNIQUE_ID, R_k %s);\n'
+                    'CREATE ROP REF_ID R1 FROM MC Ra (R_k) TO 1C Nv (%s);\n'
+                    'CREATE ROP REF_ID R2 FROM MC Rb (R_k) TO 1C Nv (%s);\n'
+                    'CREATE UNIQUE INDEX I1 ON Nv (%s);\n' % (ky, self.ty, pl, self.ty, self.ty, self.ty, ky, self.rkey, ky))
+
+    def case(self, hist, op):
+        return dict(family='null', layout=self.layout, hist=hist, op=op, tier=self.tier)
+
+    def insert_text(self):
+        import xtuml
+        return 'INSERT INTO Nv (%s) VALUES (%s);\n' % (self.decl[1].swapcase(), xtuml.serialize_value(self.null, self.ty))
+
+    def build(self, hist):
+        import xtuml
+        w = World()
+        ky, pl = self.decl
+        KY, PL = self.us
+        if self.origin == 'loaded':
+            l = xtuml.ModelLoader()
+            l.input(self.sql)
+            l.input(self.insert_text())
+            w.m = l.build_metamodel(xtuml.IntegerGenerator())
+            w.mc = w.m.find_metaclass('Nv')
+            w.x = w.m.select_any('Nv')
+            xref = {KY: None, PL: self.null}
+        else:
+            w.m = xtuml.MetaModel(xtuml.IntegerGenerator())
+            w.m.define_class('Nv', [(ky, self.ty), (pl, self.ty)])
+            for k, key in (('Ra', ky), ('Rb', self.rkey)):
+                w.m.define_class(k, [('Id', 'UNIQUE_ID'), ('R_k', self.ty)])
+                w.m.define_association('R1' if k == 'Ra' else 'R2', k, ['R_k'], True, True, '', 'Nv', [key], False, True, '').formalize()
+            w.m.define_unique_identifier('Nv', 'I1', ky)
+            w.mc = w.m.find_metaclass('Nv')
+            w.x = w.m.new('Nv', None, None)
+            xref = {KY: None, PL: None}
+        w.y = w.m.new('Nv', self.nonnull[-1], None)
+        w.z = w.m.new('Nv', None, self.null)
+        w.ra = w.m.new('Ra')
+        w.rb = w.m.new('Rb')
+        xtuml.relate(w.ra, w.x, 1)
+        xtuml.relate(w.rb, w.x, 2)
+        w.insts = [('x', w.x), ('y', w.y), ('z', w.z)]
+        w.ref = {'x': xref, 'y': {KY: self.nonnull[-1], PL: None}, 'z': {KY: None, PL: self.null}}
+        w.written = set()
+        for op in hist:
+            self.step(w, op)
+        return w
+
+    def canon(self, w):
+        try:
+            proxy = sorted(w.x.__dict__.keys())
+        except Exception:
+            proxy = None
+        return json.dumps([[u, repr(w.ref['x'][u])] for u in self.us] + [proxy])
+
+    def enabled(self, w):
+        ops = []
+        for u in self.us:
+            for s in self.sp[u]:
+                for v in self.vals:
+                    ops.append(['set', s, v])
+                ops.append(['del', s])
+        # constructor forms: terminal transitions (checked, not expanded); routes and class spellings cycled
+        n = 0
+        for u in self.us:
+            for s in self.sp[u]:
+                for v in (None, self.null):
+                    ops.append(['new', NULL_NEW_ROUTES[n % 3], self.kinds[n % 4], {s: v}])
+                    n += 1
+        ky, pl = self.decl
+        ops.append(['new', 'model', 'nV', {ky.swapcase(): None, pl.swapcase(): None}])
+        for pos in ([None, None], [self.null, None], [None, self.null], [None]):
+            ops.append(['newpos', NULL_NEW_ROUTES[n % 3], self.kinds[n % 4], pos])
+            n += 1
+        if DELETED not in w.ref['x'].values():
+            ops.append(['clone', 'model'])
+            ops.append(['clone', 'metaclass'])
+        return ops
+
+    def step(self, w, op):
+        name = op[0]
+        u = op[1].upper()
+        try:
+            if name == 'set':
+                exp = 'ok'
+                w.ref['x'][u] = op[2]
+                w.written.add(op[1])
+                setattr(w.x, op[1], op[2])
+                return 'ok', exp
+            if name == 'del':
+                exp = 'ok' if w.ref['x'][u] != DELETED else 'error'
+                w.ref['x'][u] = DELETED
+                delattr(w.x, op[1])
+                return 'ok', exp
+        except (AttributeError, KeyError) as e:
+            return 'error', exp
+        raise ValueError(op)
+
+    def apply(self, ctx, w, op, hist):
+        case = self.case(hist, op)
+
+        def bad(kind, msg, exp=None, got=None):
+            ctx.violation('c10:null:%s' % kind, case, '[null values, %s] history %s, then %s: %s' % (self.layout, hist, op, msg),
+                          repr(exp), repr(got), unit_test=self.unit_test(hist, op))
+        ctx.count('traces')
+        ctx.count('null_traces')
+        if op[0] in ('new', 'newpos', 'clone'):
+            return self.apply_new(ctx, w, op, bad)
+        got, exp = self.step(w, op)
+        ctx.distinct('outcomes', (op[0], got))
+        if got != exp and not (op[0] == 'del' and exp == 'error'):
+            bad('%s:outcome' % op[0], 'outcome %s, expected %s' % (got, exp), exp, got)
+            return False
+        return self.check_reads(ctx, w, bad, op[0])
+
+    def apply_new(self, ctx, w, op, bad):
+        KY, PL = self.us
+        try:
+            if op[0] == 'clone':
+                inst = w.m.clone(w.x) if op[1] == 'model' else w.mc.clone(w.x)
+                exp = dict(w.ref['x'])
+            else:
+                args, kw = (op[3], {}) if op[0] == 'newpos' else ([], op[3])
+                if op[1] == 'model':
+                    inst = w.m.new(op[2], *args, **kw)
+                elif op[1] == 'metaclass':
+                    inst = w.mc.new(*args, **kw)
+                else:
+                    inst = w.mc(*args, **kw)
+                exp = {KY: DELETED, PL: DELETED}        # DELETED = not given: the default of the type
+                for u, v in zip(self.us, args):
+                    exp[u] = v
+                for k, v in kw.items():
+                    exp[k.upper()] = v
+        except Exception as e:
+            bad('%s:exception' % op[0], 'creation raised %s: %s' % (type(e).__name__, e), 'instance', type(e).__name__)
+            return False
+        ctx.distinct('outcomes', (op[0], 'ok'))
+        for u, d in zip(self.us, self.decl):
+            if exp[u] == DELETED:
+                exp[u] = self.null
+                if self.ty == 'UNIQUE_ID':
+                    exp[u] = getattr(inst, d)      # defaulted id: any fresh value
+                    if exp[u] in (None, 0) or isinstance(exp[u], bool):
+                        bad('%s:default' % op[0], 'the defaulted unique_id attribute %s of the created instance reads %r' % (d, exp[u]),
+                            'a fresh id', exp[u])
+                        return False
+        w.insts = w.insts + [('n', inst)]
+        w.ref['n'] = exp
+        self.check_reads(ctx, w, bad, op[0])
+        return False       # terminal
+
+    def check_reads(self, ctx, w, bad, opname):
+        import xtuml
+        KY, PL = self.us
+        xdel = [u for u in self.us if w.ref['x'][u] == DELETED]
+        for who, inst in w.insts:
+            for u, d in zip(self.us, self.decl):
+                exp = w.ref[who][u]
+                seen = []
+                for s in self.sp[u]:
+                    ctx.count('reads')
+                    try:
+                        got = getattr(inst, s)
+                    except AttributeError:
+                        got = DELETED
+                    seen.append(got)
+                    if exp is None and s != d:
+                        ctx.count('null_none_reads')
+                    if exp != DELETED and not same(got, exp):
+                        bad('%s:read' % opname, 'reading %s.%s gives %r, expected %r: the spellings %s read %s' %
+                            (who, s, got, exp, self.sp[u][:len(seen)], seen), exp, got)
+                        return False
+                if exp == DELETED:
+                    if any(g is not None and g != DELETED for g in seen) or len(set(map(repr, seen))) != 1:
+                        bad('%s:read-after-delete' % opname, 'after deletion the spellings %s of %s read %s' %
+                            (self.sp[u], who, seen), 'all alike and unset', seen)
+                        return False
+        # the referential attributes derived from x's identifying attribute, through the association that spells the key as
+        # declared (Ra) and the one that spells it in another letter case (Rb)
+        exp = w.ref['x'][KY]
+        for rname, rinst in (('ra', w.ra), ('rb', w.rb)):
+            for s in self.rsp:
+                ctx.count('reads')
+                got = getattr(rinst, s)
+                if (got is not None) if exp == DELETED else (not same(got, exp)):
+                    bad('%s:referential' % opname, 'the referential attribute %s.%s (key spelled %r) reads %r, expected %r' %
+                        (rname, s, self.decl[0] if rname == 'ra' else self.rkey, got, None if exp == DELETED else exp),
+                        None if exp == DELETED else exp, got)
+                    return False
+        # the value serialised
+        for who, inst in w.insts:
+            if who == 'x' and xdel:
+                continue
+            ctx.count('reads')
+            text = xtuml.serialize_instance(inst)
+            exp_text = 'INSERT INTO Nv VALUES (%s);' % ', '.join(xtuml.serialize_value(w.ref[who][u], self.ty) for u in self.us)
+            if norm_text(text) != norm_text(exp_text):
+                bad('%s:serialize' % opname, 'serialize_instance(%s) gives %r, expected %r' % (who, text, exp_text), exp_text, text)
+                return False
+        # the value matched by queries: whole selections, every spelling, every null-ish value and the values of the type
+        for u in self.us:
+            if u in xdel:
+                continue         # (a selection reads the attribute of every instance of the class)
+            for n, s in enumerate(self.sp[u]):
+                for v in self.qvals:
+                    want = [inst for who, inst in w.insts if w.ref[who][u] == v]
+                    if v is None and want:
+                        ctx.count('null_none_filters')
+                    for form in NULL_FORMS:
+                        ctx.count('reads')
+                        ctx.count('null_filters')
+                        got, exp = self.select(w, form, self.kinds[n % 4], s, v), want
+                        if form in ('any', 'one'):
+                            exp = want[:1]
+                        elif form == 'nav':
+                            exp = [i for i in want if i is w.x]
+                        if len(got) != len(exp) or any(g is not e for g, e in zip(got, exp)):
+                            name = dict((id(i), k) for k, i in w.insts)
+                            bad('%s:where_eq' % opname, 'the filter %s=%r (form %s) selects %s, expected %s; stored values of the '
+                                'attribute: %s' % (s, v, form, [name.get(id(i), '?') for i in got], [name[id(i)] for i in exp],
+                                                   [(k, w.ref[k][u]) for k, _ in w.insts]),
+                                [name[id(i)] for i in exp], [name.get(id(i), '?') for i in got])
+                            return False
+        return True
+
+    def select(self, w, form, ks, s, v):
+        import xtuml
+        d = {s: v}
+        if form == 'kw':
+            return list(w.m.select_many(ks, xtuml.where_eq(**d)))
+        if form == 'dict':
+            return list(w.m.select_many(ks, d))
+        if form == 'query':
+            return list(w.mc.query(d))
+        if form == 'any':
+            got = w.m.select_any(ks, xtuml.where_eq(**d))
+        elif form == 'one':
+            got = w.mc.select_one(d)
+        else:
+            return list(xtuml.navigate_many(w.ra).nav(ks, 1)(d))
+        return [] if got is None else [got]
+
+    def probes(self, ctx, w, hist):
+        case = self.case(hist, ['probe'])
+
+        def bad(kind, msg, exp=None, got=None):
+            ctx.violation('c10:null:%s' % kind, case, '[null values, %s] state %s: %s' % (self.layout, hist, msg),
+                          repr(exp), repr(got), unit_test=self.unit_test(hist, None))
+        self.check_reads(ctx, w, bad, 'state')
+        for u in self.us:
+            for s in self.sp[u]:
+                ctx.count('reads')
+                t = w.mc.attribute_type(s)
+                if t is None or t.upper() != self.ty:
+                    bad('attribute_type', 'attribute_type(%r) is %r' % (s, t), self.ty, t)
+
+    def unit_test(self, hist, op):
+        ky, pl = self.decl
+        lines = ['import xtuml', 'l = xtuml.ModelLoader()', 'l.input(%r)' % self.sql]
+        if self.origin == 'loaded':
+            lines += ['l.input(%r)' % self.insert_text(), 'm = l.build_metamodel(xtuml.IntegerGenerator())', "x = m.select_any('Nv')"]
+        else:
+            lines += ['m = l.build_metamodel(xtuml.IntegerGenerator())', "x = m.new('Nv', None, None)"]
+        lines += ["mc = m.find_metaclass('Nv')", "y = m.new('Nv', %r, None); z = m.new('Nv', None, %r)" % (self.nonnull[-1], self.null),
+                  "ra = m.new('Ra'); rb = m.new('Rb'); xtuml.relate(ra, x, 1); xtuml.relate(rb, x, 2)"]
+
+        def stmt(o):
+            if o[0] == 'set':
+                return 'setattr(x, %r, %r)' % (o[1], o[2])
+            if o[0] == 'del':
+                return 'delattr(x, %r)' % o[1]
+            if o[0] == 'clone':
+                return 'n = m.clone(x)' if o[1] == 'model' else 'n = mc.clone(x)'
+            args = ', '.join(map(repr, o[3])) if o[0] == 'newpos' else '**%r' % (o[3],)
+            return 'n = %s%s)' % ({'model': 'm.new(%r, ' % o[2], 'metaclass': 'mc.new(', 'call': 'mc('}[o[1]], args)
+        for o in hist:
+            lines.append(stmt(o))
+        who = 'x'
+        if op:
+            lines.append(stmt(op) + '   # <- failing step')
+            who = 'n' if op[0] in ('new', 'newpos', 'clone') else 'x'
+        lines.append('print([(s, getattr(%s, s, None)) for s in %r])' % (who, self.sp[self.us[0]] + self.sp[self.us[1]]))
+        lines.append('print([(s, getattr(ra, s), getattr(rb, s)) for s in %r])' % (self.rsp,))
+        lines.append('print([(s, v, [str(i) for i in m.select_many("Nv", xtuml.where_eq(**{s: v}))]) for s in %r for v in %r])' %
+                     (self.sp[self.us[0]] + self.sp[self.us[1]], self.qvals))
+        return '\n'.join(lines)
+
+
+# ---------------------------------------------------------------------------------------------------------------------
 # search to closure over several families at once
 # ---------------------------------------------------------------------------------------------------------------------
 FAMILIES = {
@@ -1538,6 +1894,7 @@ FAMILIES = {
     'ref': dict(model=RefModel, slice=REF_SLICE, max_depth=REF_MAX_DEPTH, label='referential chain'),
     'palette': dict(model=PaletteModel, slice=PALETTE_SLICE, max_depth=PALETTE_MAX_DEPTH, label='palette'),
     'def': dict(model=DefModel, slice=DEF_SLICE, max_depth=DEF_MAX_DEPTH, label='definition'),
+    'null': dict(model=NullModel, slice=NULL_SLICE, max_depth=NULL_MAX_DEPTH, label='null values'),
 }
 
 
@@ -1677,11 +2034,20 @@ def run(ctx):
         ctx.sample(dict(history=h))
     ctx.require(res['states'] >= 100, 'too few states (%d)' % res['states'])
     specs = [('twin', layout) for layout in TWIN_LAYOUTS] + [('ref', layout) for layout in REF_LAYOUTS] + [('def', 'empty')] + \
+            [('null', layout) for layout in null_layouts(ctx.tier)] + \
             [('palette', layout) for layout in palette_layouts(ctx.tier)]
     t1 = ctx.elapsed()
     r = family_bfs(ctx, specs)
     print('  phases: names %.1fs, families %.1fs' % (t1, ctx.elapsed() - t1))
-    r2, r3, r4, r5 = r['twin'], r['ref'], r['palette'], r['def']
+    r2, r3, r4, r5, r6 = r['twin'], r['ref'], r['palette'], r['def'], r['null']
+    print('  null values: states=%s depth=%d closed=%s' % (r6['per_layout'], r6['depth'], r6['closed']))
+    for layout in null_layouts(ctx.tier):
+        ctx.require(r6['per_layout'].get(layout, 0) >= 12, 'null family, layout %s: too few states (%s)' % (layout, r6['per_layout']))
+    ctx.require(ctx.n('null_traces') >= 5000, 'null family: too few transitions (%d)' % ctx.n('null_traces'))
+    ctx.require(ctx.n('null_none_reads') >= 20000, 'null family: too few reads of a stored None under a non-declared spelling (%d)' %
+                ctx.n('null_none_reads'))
+    ctx.require(ctx.n('null_none_filters') >= 10000, 'null family: too few non-empty selections of a filter <spelling>=None (%d)' %
+                ctx.n('null_none_filters'))
     print('  definition: states=%d depth=%d closed=%s' % (r5['states'], r5['depth'], r5['closed']))
     ctx.require(r5['states'] >= 1000, 'definition family: too few states (%d)' % r5['states'])
     ctx.require(h_has(ctx, 'def_outcomes', ('probe', 'UnknownClassException')), 'definition family: no rejected use before the definition')
@@ -1748,7 +2114,8 @@ def coverage(ctx):
              'underscores included), every operation followed by every read route on both instances; referential family: '
              'closure over (instances alive, links, root identifier, keys of the four instance dicts); palette family: closure over '
              '(value, keys of the instance dict) per declared spelling; definition family: closure over (spelling of the definition, '
-             'set of (route, spelling) rejected before it, instances created, sizes of the containers the metamodel object holds)',
+             'set of (route, spelling) rejected before it, instances created, sizes of the containers the metamodel object holds); '
+             'null family: closure over (type-tagged values of the two attributes, keys of the instance dict) per attribute type and origin',
         bounds=dict(names=DECL, case_patterns='all 2^n', values=VALS,
                     twin_family=dict(classes=TWIN_DECL, layouts=TWIN_LAYOUTS, values=TWIN_VALS, states=ctx.n('twin_states'),
                                      transitions=ctx.n('twin_traces')),
@@ -1761,6 +2128,13 @@ def coverage(ctx):
                     definition_family=dict(class_name=DEF_KIND, probe_routes=DEF_PROBE_ROUTES, define_routes=DEF_DEFINE_ROUTES,
                                            create_routes=DEF_CREATE_ROUTES, rejected_uses_before_definition=DEF_MAX_PROBES,
                                            states=ctx.n('def_states'), transitions=ctx.n('def_traces')),
+                    null_family=dict(types=NULL_TYPES, origins=NULL_ORIGINS, attribute_names=NULL_NAMES.get(ctx.tier, NULL_NAMES['quick']),
+                                     written_values=dict((t, [None, NULL_OF[t], NULL_NONNULL[t][0]] + NULL_CROSS.get(ctx.tier, {}).get(t, []))
+                                                         for t in NULL_TYPES),
+                                     filter_values=repr(NULL_NULLISH) + ' and the non-null values of the type', filter_routes=NULL_FORMS,
+                                     states=ctx.n('null_states'), transitions=ctx.n('null_traces'),
+                                     reads_of_a_stored_None_under_a_non_declared_spelling=ctx.n('null_none_reads'),
+                                     filters=ctx.n('null_filters'), nonempty_selections_of_None=ctx.n('null_none_filters')),
                     palette_family=dict(names=PALETTE[ctx.tier] + FOLD_NAMES[ctx.tier],
                                         names_whose_case_mapping_does_not_round_trip=FOLD_NAMES[ctx.tier],
                                         declared_spellings=palette_layouts(ctx.tier),
